@@ -1,6 +1,8 @@
 package main
 
 import (
+	"strconv"
+	"os"
 	"bufio"
 	"fmt"
 	"strings"
@@ -9,7 +11,7 @@ import (
 )
 
 func init() {
-	register("C05", &prop{gen: genC05, drive: driveSel})
+	register("C05", &prop{gen: genC05, drive: driveC05})
 }
 
 // genC05: every n in 0..K × multisets with duplicates × five output modes × {top-level, nested} × {ORDER BY, none}.
@@ -62,6 +64,29 @@ func genC05(g *Gen, tier string, w *bufio.Writer) {
 			}
 		}
 	}
+	// LIMIT / ORDER BY over a RETRACTING source (a group-by with an early-firing trigger), nested and at top level
+	nl := 4
+	if tier == "thorough" {
+		nl = 40
+	}
+	for ti := 0; ti < nl; ti++ {
+		nrows := 2 + g.Intn(7)
+		var sb strings.Builder
+		fmt.Fprintf(&sb, "T 2 %d", nrows)
+		for r := 0; r < nrows; r++ {
+			// arrival orders like a,b,c,a,b: counts keep changing, so earlier results are retracted
+			fmt.Fprintf(&sb, " %s %s", EncodeValue(octosql.NewInt(int64(g.Intn(4)))), EncodeValue(octosql.NewInt(int64(g.Intn(3)))))
+		}
+		for n := 0; n <= 5; n++ {
+			for _, mode := range []string{"json", "csv", "batch_table", "stream_native"} {
+				for _, nested := range []int{0, 1} {
+					for order := 0; order <= 2; order++ {
+						fmt.Fprintf(w, "lim2 %s %d %d %d %s\n", mode, nested, order, n, sb.String())
+					}
+				}
+			}
+		}
+	}
 	// plus random nested shapes where every block has a LIMIT
 	n := 300
 	if tier == "thorough" {
@@ -75,4 +100,36 @@ func genC05(g *Gen, tier string, w *bufio.Writer) {
 		fmt.Fprintln(w, selLine(mode, true, "csv", t, q))
 	}
 	_ = strings.Join
+}
+
+
+func driveC05(toks []string) string {
+	if toks[0] != "lim2" {
+		return driveSel(toks)
+	}
+	mode, nested, order, n := toks[1], toks[2] == "1", toks[3], toks[4]
+	ncols, _ := strconv.Atoi(toks[6])
+	nrows, _ := strconv.Atoi(toks[7])
+	rest := toks[8:]
+	var rows [][]octosql.Value
+	for r := 0; r < nrows; r++ {
+		var row []octosql.Value
+		row, rest = ParseValues(ncols, rest)
+		rows = append(rows, row)
+	}
+	dir := scratchDir("lim2")
+	defer os.RemoveAll(dir)
+	writeTable(dir, "csv", []string{"c0", "c1"}, rows)
+	ord := ""
+	if order == "1" {
+		ord = " ORDER BY c ASC"
+	} else if order == "2" {
+		ord = " ORDER BY c DESC"
+	}
+	inner := "SELECT c0, COUNT(c1) AS c FROM t.csv t GROUP BY c0 TRIGGER COUNTING 1"
+	sql := inner + ord + " LIMIT " + n
+	if nested {
+		sql = "SELECT * FROM (" + inner + ") q" + ord + " LIMIT " + n
+	}
+	return canonOutput(runOctosql(dir, nil, sql, "-o", mode), mode, "ii")
 }
